@@ -59,8 +59,8 @@ def text_lines(out, case, escaped):
     """-> ('oneline', None) | ('lines', [raw lines between <p> and </p>]) | ('shape', msg)"""
     ind, d = case["indentation"], case["depth"]
     lines = out.split("\n")
-    if (ind * d + "<p>" + escaped + "</p>") in lines:
-        return "oneline", None
+    if ("<p>" + escaped + "</p>") in out:
+        return "oneline", None       # the whole element fitted on a line (possibly together with its ancestors' tags)
     try:
         a = lines.index(ind * d + "<p>")
     except ValueError:
